@@ -50,7 +50,7 @@ def one(rec, hub, seed, tier, i):
 def run(rec, hub, tier, seed, shard, nshards, budget):
     S.register_compute(hub, PROPS)
     rec.require(S.M03B, 10)
-    n = 600 if tier == "quick" else 2500
+    n = 1500 if tier == "quick" else 6000
     for k in range(n):
         if not budget.ok():
             break
